@@ -67,6 +67,7 @@ func run(r *lib.Run) {
 		"and per honest pair 6 (quick) / 8 (thorough) mutants drawn from 45 classes (path nibble change/truncate/extend, node hash, address / code hash, block hash unknown / other root, proof swap / reverse / drop / duplicate / " +
 		"append / prepend, node byte flips, flipped last node with re-hashed key, empty compact key, leaf-as-inner incl. forged nodes below a leaf whose 32-byte value is a node hash, " +
 		"cross-key / cross-contract mixes, foreign code, raw SSZ byte flips / truncation); distinct = different (class, key bytes, offer bytes); " +
+		"network path: a subset of the pairs (honest, mutants incl. every bytecode class, invalid offers for keys already held) through the real state.Network content loop on a real protocol instance, acceptance observed as gossip arriving at a scripted peer; " +
 		"non-trivial = the envelope decoded for the reference, the pair was run through the real ValidateContent (+ Storage.Put) and the verdicts were compared")
 	r.Assume("header source is honest: GetBlockHeaderByHash returns only the header whose hash was asked for (a lying source is C02's subject)")
 	r.Assume("reference: Yellow Paper trie node forms / hex-prefix keys decoded with go-ethereum's rlp package, keccak links, portal state-network SSZ containers; generator cross-checked against go-ethereum trie.VerifyProof")
@@ -93,6 +94,12 @@ func run(r *lib.Run) {
 	e := &env{r: r, st: state.NewStateStorage(inner, db), db: db,
 		expected: map[[32]byte][32]byte{}, tainted: map[[32]byte]bool{}, findings: map[string]*finding{}}
 
+	var nwg sync.WaitGroup
+	for i := 0; i < r.Pick(3, 24); i++ {
+		nwg.Add(1)
+		go func(i int) { defer nwg.Done(); netPath(r, i) }(i)
+	}
+	defer nwg.Wait()
 	specVectors(r, e)
 	directedTiny(r, e)
 	probeStopsAboveLeaf(r, e)
